@@ -374,7 +374,7 @@ is_big = amount > 9001
 [G]
 match: contains("@P1")
 category: Shopping
-tags: st, {(r.label for r in orders if r.amount == amount)}, {[r.item for r in orders if r.nope == 1]}, {next(r.item for r in orders if r.amount > 9003)}
+tags: st, {(r.label for r in orders if r.amount == amount)}, {[r.item for r in orders if r.nope == 1]}, {next(r.item for r in orders if r.amount > 9003)}, {(r.item for r in orders if r.amount < amount)}
 
 [Skipped]
 match: (is_big := amount > 9002) and field.nope == "x"
@@ -415,7 +415,7 @@ def lazy_tag(via='engine'):
             finally:
                 merchant_utils.extract_merchant_name = real
             cat, tags = ('' if c == 'Unknown' else c), set((info or {}).get('tags', []))
-        exp_tags = ({'st'} if hit else set()) | ({'large'} if amount > n1 else set())
+        exp_tags = ({'st'} if hit else set()) | ({'large'} if amount > n1 else set()) | ({'book'} if (hit and r1 < amount) else set())      # a generator tag stands for its items
         return post(cat == ('Shopping' if hit else '') and tags == exp_tags)
     return ob
 
@@ -435,7 +435,7 @@ def obligations(tier, seed):
     obs.append(Obligation(id='sequence-same-engine', factory='sequence_same_engine', timeout=to, group='item independence',
                           bounds='two transactions on one engine; field value <= 1 char each; the rule has no value when no supplemental row matches'))
     for via in ['engine', 'normalize']:
-        obs.append(Obligation(id=f'lazy-tag-{via}', factory='lazy_tag', params={'via': via}, timeout=to, group='failing variable / let / field / tag',
+        obs.append(Obligation(id=f'lazy-tag-{via}', factory='lazy_tag', params={'via': via}, timeout=170 if q else 600, group='failing variable / let / field / tag',
                               bounds=f'3 rules through {via}: generator / list / next() dynamic tags over 3 supplemental rows lacking the columns they read, a := rule that fails after binding; description <= 2, pattern <= 1, integer amount / thresholds / row amount symbolic'))
     for pos in POSITIONS:
         obs.append(Obligation(id=f'position-{pos}', factory='position', params={'pos': pos}, timeout=to, group='failing variable / let / field / tag',
